@@ -28,6 +28,7 @@ use crate::{
         replicated::semi_honest::AdditiveShare as Replicated,
     },
     seq_join::seq_join,
+    sharding::ShardIndex,
 };
 
 /// Improved Aggregation a.k.a Aggregation revealing breakdown.
@@ -76,7 +77,8 @@ where
 {
     // This was checked early in the protocol, but we need to check again here, in case
     // there were no matching pairs of reports.
-    if attributed_values.is_empty() {
+    // (on a sharded helper this shard still takes part in the shuffle below)
+    if attributed_values.is_empty() && ctx.shard_count() == ShardIndex::from(1u32) {
         return Ok(BitDecomposed::new(std::iter::repeat_n(
             Replicated::<Boolean, B>::ZERO,
             usize::try_from(HV::BITS).unwrap(),
@@ -144,10 +146,11 @@ where
         intermediate_results = next_intermediate_results;
     }
 
+    // a shard may be left without any row after the shuffle
     let mut result = intermediate_results
         .into_iter()
         .next()
-        .expect("aggregation input must not be empty");
+        .unwrap_or_else(|| BitDecomposed::new(std::iter::empty()));
     result.resize(
         usize::try_from(HV::BITS).unwrap(),
         Replicated::<Boolean, B>::ZERO,
@@ -176,6 +179,9 @@ where
     Replicated<BK>: Reveal<C, Output = <BK as Vectorizable<1>>::Array>,
     V: BooleanArray + U128Conversions,
 {
+    if attributions.is_empty() {
+        return Ok(ValueHistogram::<V, B>::new());
+    }
     let reveal_ctx = parent_ctx.set_total_records(TotalRecords::specified(attributions.len())?);
 
     let reveal_work = stream::iter(attributions).enumerate().map(|(i, report)| {
